@@ -399,6 +399,21 @@ impl<'a> Walk<'a> {
         match self.rng.below(40) {
             0 => A::C(CS::Null),
             1 => A::C(CS::Bad),
+            2 => {
+                // one ill-formed byte inside the text: at the end of a string literal if there is one
+                let s = s.replace('\0', "");
+                let at = match s.rfind('"') {
+                    Some(k) if k > 0 && self.rng.chance(3, 4) => k,
+                    _ => {
+                        let mut k = self.rng.below(s.len() as u64 + 1) as usize;
+                        while !s.is_char_boundary(k) {
+                            k -= 1;
+                        }
+                        k
+                    }
+                };
+                A::C(CS::BadIn(s[..at].to_string(), s[at..].to_string()))
+            }
             _ => A::C(CS::Ok(s.replace('\0', ""))),
         }
     }
